@@ -17,6 +17,22 @@ PROFILE = {"irr_methods": [0, 1, 2, 3, 4, 4, 5], "season_cap_p": 0.5, "n_seasons
 
 
 def gen_case(rng, tier, idx):
+    if idx % 4 == 2:
+        # crops whose water productivity changes during yield formation (WPy < 100) and indeterminate crops, sown into a dry
+        # seed bed (delayed germination) or put through a dry spell and re-watering, so that the development clock that times
+        # the productivity switch runs apart from the calendar
+        from ..domain import WPY_CROPS, INDETERMINATE_CROPS
+        prof = dict(PROFILE, crops=WPY_CROPS + INDETERMINATE_CROPS, iwc_kinds=["Prop", "Pct"], sat_start_p=0.0, gw=0.0, irr_methods=[0, 0, 1, 3],
+                    event_kinds=["dry_then_wet", "dry_then_wet", "drought", "wet_spell"], events_per_year=3.0, sensible_planting_p=0.9,
+                    custom_soil_p=0.0)
+        case = std_case(rng, prof)
+        iwc = case["spec"]["iwc"]
+        if rng.random() < 0.7:
+            if iwc["wc_type"] == "Prop":
+                iwc["value"] = ["WP" for _ in iwc["value"]]
+            else:
+                iwc["value"] = [rng.choice([0, 5, 10]) for _ in iwc["value"]]
+        return case
     return std_case(rng, PROFILE)
 
 
